@@ -203,6 +203,19 @@ Theorem pom_decl_property_update_exact_on_D : forall c u,
 Proof. exact pom_decl_property_update_exact_lemma. Qed.
 Print Assumptions pom_decl_property_update_exact_on_D.
 
+(* Exactness on D_multi: SEVERAL updates at once, mixed: literal versions, ${property} versions (every definition
+   in effect sits in the declaring pom, in the block buildPatches writes to, and is used by that one declaration;
+   no placeholder name twice in one version), versions with ${...} that generatePropertyPatches cannot match
+   (rewritten literally), and added managed dependencies; pairwise different keys, each key declared once in a
+   well-formed chain. Write succeeds, exactly the addressed declarations stand for VersionTo, the added requirements
+   are project-level management declarations of the main pom, every other effective version is unchanged.
+   (d_multi is the oracle's d_full minus versions that repeat a placeholder name.) *)
+Theorem pom_decl_write_exact_on_D_full : forall c ups,
+  d_multi c ups = true ->
+  exists c', write_chain c ups = Some c' /\ decl_spec_all c ups c' = true.
+Proof. exact pom_decl_write_exact_on_D_full_lemma. Qed.
+Print Assumptions pom_decl_write_exact_on_D_full.
+
 (* The full statement (every update addressed to an existing declaration) is refuted three ways. *)
 Definition kA : bytes := [103;58;97;124;106;97;114;124].    (* g:a|jar| *)
 Definition kB : bytes := [103;58;98;124;106;97;114;124].    (* g:b|jar| *)
@@ -314,4 +327,16 @@ Example pom_decl_added_example :
   option_map eff_all (write_chain ex_chain3 [ex_pupd3]) =
   Some [(0%nat, [], kA, [49;46;48]); (0%nat, MANAGEMENT, [103;58;110;124;106;97;114;124], [51;46;49]);
         (0%nat, PROFILE ++ [64;112;49] ++ AT_MANAGEMENT, kB, [50;46;48])].
+Proof. split; vm_compute; reflexivity. Qed.
+
+(* non-vacuity of D_multi: ex_chain2 (property v in the project and two profiles) with three updates at once:
+   the ${v} dependency of the project (property), 1.${v}-jre in profile p1 (property), and an added one *)
+Definition ex_pups4 : list pupd :=
+  [ {| pu_key := kA; pu_to := [57]; pu_pom := 0; pu_origin := [] |};
+    ex_pupd2;
+    {| pu_key := [103;58;110;124;106;97;114;124]; pu_to := [51;46;49]; pu_pom := 999; pu_origin := [] |} ].
+Example pom_decl_multi_example :
+  d_multi ex_chain2 ex_pups4 = true /\
+  option_map (fun c' => map (fun x => snd x) (eff_all c')) (write_chain ex_chain2 ex_pups4) =
+  Some [[57]; [51;46;49]; [49;46;57;45;106;114;101]; [55]].
 Proof. split; vm_compute; reflexivity. Qed.
